@@ -66,7 +66,7 @@ CHECKS["C04"] = dict(
           "every pattern of integer widths 1..10 and all 65536 binary16 patterns in both byte orders and cross-checks the bit-level "
           "operators against plain arithmetic and the IEEE class table; boundary patterns of wide integers, binary32/64 and 1750A "
           "are exported too. Every exported row is decoded by the real parse_value at several bit offsets; random wide patterns "
-          "decoded by the real code are logged and re-evaluated by Trace_Numeric."),
+          "decoded by the real code are logged and re-evaluated by Trace_Numeric. A share of all cases uses encodings that also declare context calibrators none of which applies (still uncalibrated); one type object per layout decodes all its cases."),
     note="Byte order is claimed for whole-byte widths only; NaN payloads are not compared. " + TRUSTED,
     technique="TLA+ transcription of the decoders, TLC exhaustive small-width tables + replay; logged decodes re-evaluated by TLC",
     design="5 C04")
@@ -77,7 +77,7 @@ CHECKS["C06"] = dict(
           "spellings. TLC evaluates it on the exhaustive small space (relations x spellings x selectors x literals x boundary values "
           "incl. 0/False/negative/int-vs-float; every group shape up to the bound x all truth assignments; lookup orders) and on "
           "random trees, checks its own De Morgan duality on every boolean case, and compares with what the real classes returned "
-          "when built through constructors and through XML with explicit and omitted defaults."),
+          "when built through constructors and through XML with explicit and omitted defaults. One evaluator object per (expression, route) evaluates all its environments in shuffled order (history independence; the history is part of a replay)."),
     note="Relations that are mathematically undefined (missing operand, literal not expressible in the operand's type, ordering of "
          "strings) accept any answer; values restricted to +-2^12 with dyadic fractions for exact 32-bit arithmetic. " + TRUSTED,
     technique="TLA+ transcription of the evaluation rules; TLC evaluates the exhaustive bounded case space and logged random cases against the real classes",
@@ -89,7 +89,7 @@ CHECKS["C08"] = dict(
           "CalibrationError otherwise, float result class, enumeration / boolean derivation from the raw value, time-type "
           "scale/offset, and raw_value retention. TLC evaluates it on the exhaustive small space (every knot, both end points, "
           "midpoints, outside; precedence and fall-through of <= 3 context calibrators; enum/bool over calibrated encodings) and on "
-          "random calibrator sets, and compares with the real ParameterType.parse_value built by constructors and from XML."),
+          "random calibrator sets, and compares with the real ParameterType.parse_value built by constructors and from XML. One type object per (type, route) decodes all its cases in shuffled order (history independence)."),
     note="Oracle domain is the exact-dyadic sub-domain (coefficients, knots with power-of-two spacing, raw values); general decimal "
          "coefficients are not decided. " + TRUSTED,
     technique="TLA+ transcription with exact rational arithmetic; TLC evaluates the exhaustive bounded case space and logged random cases against the real classes",
@@ -101,7 +101,7 @@ CHECKS["C07"] = dict(
           "for whole-buffer, termination-character (searched at code-unit boundaries) and leading-size delimiting, error outcomes and the "
           "cursor advance. TLC evaluates it on the enumerated small space (1..41-bit fields at offsets 0..7, reference values 0..5, three "
           "delimiters x three length specifications, 1- and 2-byte code units) and on random buffers up to 2 kB in every supported "
-          "encoding, and compares with the real parse_value built by constructors and from XML."),
+          "encoding, and compares with the real parse_value built by constructors and from XML. One type object per (encoding, route) decodes all its cases in sequence, and looked-up lengths are decoded for every ordered pair of reference values on one object (history independence)."),
     note="Character codecs applied to the selected bytes are trusted; zero-length strings, non-integral/negative lengths and over-reads "
          "are outside the claimed domain; plain UTF-16/32 with a byteOrder attribute are not generated. " + TRUSTED,
     technique="TLA+ transcription of length computation and delimiting; TLC evaluates the bounded case space and logged random cases against the real classes",
@@ -136,7 +136,7 @@ CHECKS["C11"] = dict(
           "x the 8 option combinations with invariants OutEqualsPerPacket / DoneMeansAll and action property NoCrossTalk; per-packet end "
           "states come from the Decode walk. An edge cover of the dumped graph is replayed on real generators sharing one definition "
           "(each next() compared with the model, with the single-packet parse, and warning counts), random long streams with random "
-          "schedules are validated by Trace_Generator, and the definition's XML is compared before/after."),
+          "schedules are validated by Trace_Generator, and the definition's XML is compared before/after. Raw packet objects handed out by the framer, by a headers-only generator and inside yielded items are each parsed on their own twice and compared with the single-packet result."),
     note="Streams avoid packets whose decoding the specification does not decide (out-of-bounds reads, field errors). A segmented section composes "
          "Segments (reassembly), Decode and Generator for generators suspended in the middle of a group. " + TRUSTED,
     technique="TLA+ spec of generator interleavings, TLC exhaustive BFS; edge-cover replay (spec->code) and trace validation (code->spec)",
@@ -149,7 +149,7 @@ CHECKS["C01"] = dict(
           "untrusted steering encoder and then mutated; for every packet TLC runs the Decode.tla walk (which composes Numeric, StrBin, "
           "Calib and Criteria) with its step invariants and compares items, order, exact values, raw values, classes, views, outcome, "
           "cursor and the generator-level classification; the whole stream through packet_generator is compared with the per-packet "
-          "results."),
+          "results. Each stream is run again on the same definition object before, while and after a generator started with another root container (reuse independence)."),
     note="Bounded/random exploration of documents (seeded), not exhaustive; cases whose referenced values leave the exact small domain are "
          "undefined and accepted; character codecs trusted. The bundled / mission documents are read by an independent reader (harness/xread.py) and their recorded packets decoded (CTIM in the thorough tier only). " + TRUSTED,
     technique="TLA+ specification of the whole decode path evaluated by TLC on randomly generated documents and streams; end-state conformance against the real generator",
@@ -161,7 +161,7 @@ CHECKS["C16"] = dict(
           "every history of <= 3 loads (invariant LookupSeesOwnDoc; action properties HistoryIndependent, FaultsFail). An edge cover of "
           "the dumped graph is replayed in one process with random comment / whitespace / default-omission placement, comparing after "
           "every load the outcome, the class-level namespace state and the projection of the loaded definition with the document's "
-          "normal form; random histories of 12 loads incl. the bundled and mission documents are validated by Trace_LoaderNs."),
+          "normal form; random histories of 12 loads incl. the bundled and mission documents are validated by Trace_LoaderNs. The model's second prefix is spelled in 11 ways (capitals shared with element names, digits, '-', '.', '_')."),
     note="Equality of definitions is judged by the harness's projection (project.py); file documents are compared with their own first "
          "load. " + TRUSTED,
     technique="TLA+ state-machine spec of the loader's namespace state, TLC exhaustive histories; edge-cover replay and trace validation of load histories",
@@ -184,7 +184,7 @@ CHECKS["C15"] = dict(
           "dependency graphs of 2-4 containers x initial orders x {object-built, loaded}. The real library is run through build + 3 "
           "write/load cycles on the same graphs and on random rich definitions: W(D) = W(D) bytewise, output well-formed with every "
           "element in the definition's namespace, D unchanged by writing, cache orders stable after the first cycle, G2 = G3 = G4 "
-          "bytewise."),
+          "bytewise. Hand-written documents (string-encoded enumerations in every codec / byte-order spelling, time encodings) and all bundled documents go through the same byte-level cycle checks, as do files written by write_xml."),
     note="Byte identity is observed directly on the real serializer with a fixed header date; the order in which the sets are written is "
          "not a verdict (only its stability), so a differing order is recorded as model drift. " + TRUSTED,
     technique="TLA+ model of cache ordering under write/load cycles checked by TLC; cycle replay on the real serializer with byte comparison",
@@ -195,7 +195,7 @@ CHECKS["C09"] = dict(
           "TLC checks Read(Write(v)) = v and exports every lattice point. Each point and random combinations become real definitions built "
           "from objects and loaded from XML; random rich definitions and the bundled / mission documents are added. For every definition X "
           "an independent structural projection (incl. length adjustments, calibrators, criteria, enumerations, units, descriptions, "
-          "inheritance, abstract flags) of load(write(X)) must equal that of X, and packets must decode identically before and after."),
+          "inheritance, abstract flags) of load(write(X)) must equal that of X, and packets must decode identically before and after. Object-built definitions are also taken with equal calibrators / encodings / criteria shared as single instances, and every second case writes a second tree before the first is serialised."),
     note="The deciding comparison is the harness's projection and decode comparison (exploration level); the TLA+ part enumerates the "
          "attribute lattice. Base-without-criteria and zero-length binary are outside the writable subset. " + TRUSTED,
     technique="TLA+ attribute-lattice enumeration (TLC) driving projection round-trip conformance on real definitions",
@@ -231,7 +231,7 @@ CHECKS["C18"] = dict(
           "replayed through create_dataset on real files (rows identified by a packet id field). At value level, per-APID layouts cover "
           "integers around every dtype threshold (7..72 bits, signed and unsigned), IEEE 16/32/64 and 1750A floats incl. specials, "
           "enumerations, booleans, calibrated and time values, strings and blobs with NULs and non-ASCII text, in derived and raw mode "
-          "over three files; every cell is compared with the item the packet generator yields for that packet."),
+          "over three files; every cell is compared with the item the packet generator yields for that packet. create_dataset is called in every documented shape (list / tuple / iterator / single path of str or Path; definition object or document path); binary fields of 4, 9, 12, 20 bits and a referenced length are part of the value layout."),
     note="Two known findings (trailing NULs of 'S'/'U' dtype cells) are listed in known_findings.json and reported as KNOWN-FINDING; every "
          "other cell difference is a violation. The generator's own values are decided by C01/C04/C07/C08. " + TRUSTED,
     technique="TLA+ spec of per-APID accumulation checked by TLC and replayed through create_dataset; cell-by-cell comparison with the packet generator",
